@@ -231,16 +231,13 @@ func packageNameOf(dir string) (string, error) {
 }
 
 // stubFor returns the harness stub replacing the callee mangled as mn,
-// preferring the one defined in the running harness's own package.
+// defined in the running harness's own package (stubs never leak across packages).
 func (p *Program) stubFor(mn string, harnessPkg *ssa.Package) *ssa.Function {
 	l := p.stubs[mn]
 	for _, f := range l {
 		if f.Pkg == harnessPkg {
 			return f
 		}
-	}
-	if len(l) > 0 {
-		return l[0]
 	}
 	return nil
 }
